@@ -12,14 +12,16 @@ from harness.sshpair import Pair, NoAuthServer, PairClient
 from harness.vloop import Deadlock, _EOF
 
 TYPES = {90: 'OPEN', 91: 'CONF', 92: 'FAIL', 98: 'REQ', 99: 'SUCC',
-         100: 'REQFAIL', 94: 'DATA', 96: 'EOF', 97: 'CLOSE', 1: 'DISC'}
+         100: 'REQFAIL', 94: 'DATA', 96: 'EOF', 97: 'CLOSE', 1: 'DISC',
+         93: 'ADJ'}
 LEGAL_AFTER_MADE = {'session_started', 'eof_received', 'connection_lost',
                     'data_received'}
 
 
 class World:
-    def __init__(self, chans, reject=()):
+    def __init__(self, chans, reject=(), win=0):
         self.chans = list(chans)
+        self.win = win               # channel window in 1-byte chunks (0: default window)
         self.reject = set(reject)
         self.log = {x: {c: [] for c in self.chans} for x in 'cs'}
         self.chan = {x: {} for x in 'cs'}
@@ -68,7 +70,10 @@ class World:
                     return False
                 return mk_session('s', ch, asyncssh.SSHServerSession)()
 
-        self.pair = Pair(server_cls=Srv, server_kw=dict(encoding=None))
+        skw = dict(encoding=None)
+        if win:
+            skw['window'] = win
+        self.pair = Pair(server_cls=Srv, server_kw=skw)
 
     def _watch(self, name, coro):
         self.tasks[name] = self.pair.loop.create_task(coro)
@@ -98,7 +103,8 @@ class World:
             def start():
                 self._watch(f'create:{ch}', p.conn.create_session(
                     self.mk_session('c', ch, asyncssh.SSHClientSession),
-                    command='x', encoding=None))
+                    command='x', encoding=None,
+                    **({'window': self.win} if self.win else {})))
             p.call(start)
         elif k == 'weof':
             self._api(self.chan[lbl[1]][lbl[2]].write_eof)
@@ -196,12 +202,17 @@ class World:
             for c, chan in self.chan[x].items():
                 obs['states'][(x, c)] = (chan._send_state, chan._recv_state,
                                          len(chan._recv_buf))
+                if self.win:
+                    obs.setdefault('flow', {})[(x, c)] = (
+                        chan._send_window, chan._send_buf_len,
+                        chan._recv_window)
         obs['pending'] = {x: [TYPES.get(t, t) for t, _, _ in p.queue[x]
                               if t in TYPES] for x in 'cs'}
         return obs
 
     # ---- L1 monitors ----
-    def l1(self, final):
+    def l1(self, final, quiet=False):
+        """quiet: nothing is in flight in either direction."""
         bad = []
         p = self.pair
         for x in 'cs':
@@ -244,6 +255,12 @@ class World:
                                f'connection_lost after {self.rxbytes[x][c]} of '
                                f'the {self.wbytes[y][c]} bytes its peer wrote '
                                f'before closing the channel: {self.log[x][c]}')
+            # between two honest endpoints nothing is a protocol error: unless
+            # somebody closed, aborted or cut the connection it is still up
+            if 'conn' not in self.rough and x in p.lost:
+                bad.append(f'HonestNoError: connection {x} ended with '
+                           f'{p.lost[x]!r} although neither application '
+                           f'closed it and the transport was not cut')
             if p.lost_n[x] > 1:
                 bad.append(f'CloseOnceAndLast: owner {x} connection_lost '
                            f'called {p.lost_n[x]} times')
@@ -277,6 +294,40 @@ class World:
                     bad.append(f'CloseOnceAndLast: session {x}{c} never got '
                                f'connection_lost although the channel is '
                                f'closed in both directions: {self.log[x][c]}')
+            if quiet and 'conn' not in self.rough and not p.lost:
+                for x in 'cs':
+                    y = 's' if x == 'c' else 'c'
+                    for c in self.chans:
+                        mine, peer = self.chan[x].get(c), self.chan[y].get(c)
+                        if mine is None or peer is None or \
+                                'session_started' not in self.log[y][c]:
+                            continue
+                        consuming = peer._recv_paused is False and \
+                            (y, c) not in self.closed_by_app
+                        # close() on a channel whose peer keeps reading: the
+                        # unsent data drains, CLOSE goes out, the peer answers
+                        t = self.tasks.get(f'wait_closed:{x}:{c}')
+                        if (x, c) in self.closed_by_app and consuming and \
+                                t is not None and not t.done():
+                            bad.append(
+                                f'AllWaitersResolved: wait_closed() on '
+                                f'channel {x}{c} still pending with nothing '
+                                f'in flight although close() was called and '
+                                f'the peer is reading (send state '
+                                f'{mine._send_state}, {mine._send_buf_len} '
+                                f'bytes unsent, window {mine._send_window})')
+                        # as long as the receiver keeps reading every byte
+                        # written is delivered (C07 / C08)
+                        if consuming and (x, c) not in self.closed_by_app \
+                                and (y, c) not in self.rough \
+                                and (x, c) not in self.rough \
+                                and self.rxbytes[y][c] != self.wbytes[x][c]:
+                            bad.append(
+                                f'AllDelivered: session {y}{c} is reading and '
+                                f'nothing is in flight, but it has {self.rxbytes[y][c]} '
+                                f'of the {self.wbytes[x][c]} bytes its peer '
+                                f'wrote ({mine._send_buf_len} still unsent, '
+                                f'send window {mine._send_window})')
             for c in self.chans:
                 t = self.tasks.get(f'create:{c}')
                 if t is not None and not t.done():
@@ -326,11 +377,11 @@ def model_obs(st, chans):
     return obs
 
 
-def replay(steps, chans, reject=(), final=None):
+def replay(steps, chans, reject=(), final=None, win=0):
     """steps: [(label, state-or-None)].  With states the implementation is
     compared with the model after every step; `final` (a model state) is
     compared at the end of the script."""
-    w = World(chans, reject).start()
+    w = World(chans, reject, win).start()
     res = {'diverged': None, 'l1': [], 'script': []}
     try:
         i, n = 0, len(steps)
@@ -383,13 +434,22 @@ def replay(steps, chans, reject=(), final=None):
                                            f'states code={(s_, r_, nb)} '
                                            f'model={want_st}')
                         break
+                    if win and at('reg', x, c) and at('ss', x, c) != 'closed':
+                        wantf = (at('swin', x, c), at('sbufN', x, c),
+                                 at('rwin', x, c))
+                        if got['flow'][(x, c)] != wantf:
+                            res['diverged'] = (
+                                f'step {i} {lbl}: channel {x}{c} (send '
+                                f'window, unsent, receive window) code='
+                                f'{got["flow"][(x, c)]} model={wantf}')
+                            break
             if res['diverged']:
                 break
             i = j
         res['l1'] = w.l1(final=False) if not res['diverged'] else []
         # end game: deliver what is in flight, then lose the transport
         w.quiesce()
-        res['l1'] += w.l1(final=False)
+        res['l1'] += w.l1(final=False, quiet=True)
         w.do(('cut',))
         w.pair.loop.run_until_idle()
         res['l1'] += w.l1(final=True)
